@@ -330,7 +330,10 @@ class Client:
         clients = [cls(channel) for channel in channels]
         for channel, client in zip(channels, clients):
             channel.sink = functools.partial(on_pdu, client)
-            channel.att_mtu = att.ATT_DEFAULT_MTU
+            # Core Specification Vol 3, Part G, 5.3.1 ATT_MTU: on an enhanced bearer
+            # the ATT_MTU is the minimum of the MTU values of the two devices (the
+            # peer's value is only known once the channel is connected).
+            channel.att_mtu = min(channel.mtu, channel.peer_mtu)
         return clients[0] if count == 1 else clients
 
     @property
